@@ -587,6 +587,8 @@ func main() {
 	run := vh.Start("C04")
 	r := run.Rng
 	nFull := 0
+	// the real-listener class runs beside the in-process classes (listener.go); its cases are added last
+	finishListen := listenStart(run)
 
 	emit := func(class string, s *sequence, full bool) {
 		term, ntargets, ok := s.coq()
@@ -861,6 +863,7 @@ func main() {
 		}
 	}
 
+	finishListen()
 	run.Notes["full_ring_cases"] = nFull
 	run.Finish(preamble, run.Scale(38, 250))
 }
